@@ -15,6 +15,8 @@ rm -rf /tmp/evidence_backup && cp -r /verif/evidence /tmp/evidence_backup
 echo "== demo on unchanged tree: exit $(run_demo)"
 git apply "$patch" || { echo "patch does not apply"; exit 2; }
 echo "== tests with change: $(/venv/bin/python -m pytest -q -p no:cacheprovider --timeout=900 --continue-on-collection-errors 2>&1 | tail -1)"
+rm -rf /repo/.cache
+echo "== tests with change, cold cache: $(/venv/bin/python -m pytest -q -p no:cacheprovider --timeout=900 --continue-on-collection-errors 2>&1 | tail -1)"
 echo "== demo with change: exit $(run_demo)"; tail -3 /tmp/seed_demo.log
 for p in "$@"; do
 	echo "== check $p with change:"
